@@ -38,6 +38,15 @@ def gen_tasks(tier, seed):
                 wf2 = I.walk_flow(es, rng, weights=(1, 2, 4), max_walks=3)
                 if wf2 and max(wf2[0].values()) <= 8 and sum(wf2[0].values()) <= 30:
                     tasks.append({**base, "edges": I.with_flow(es, wf2[0]), "kwargs": {"weight_type": "int", "optimization_options": {"use_min_gen_set_lowerbound": True}}})
+            # ignored edges (their stale value is off by one): the minimum is over decompositions of the non-ignored part, also with the
+            # min-gen-set lower bound switched on -- the first three edges in turn
+            if rep == 0:
+                for ex in es[:3]:
+                    stale = [(u, v, f + 1 if (u, v) == ex else f) for (u, v, f) in wedges]
+                    if not any(f for (u, v, f) in stale if (u, v) != ex):
+                        continue
+                    for oo in ({}, {"use_min_gen_set_lowerbound": True}):
+                        tasks.append({**base, "edges": stale, "ignored": [list(ex)], "kwargs": {"weight_type": "int", "elements_to_ignore": [list(ex)], "optimization_options": dict(oo)}})
             # subset constraint taken from one generating walk (so a decomposition satisfying it exists, possibly with more walks)
             w = rng.choice(walks)
             wes = list(zip(w[:-1], w[1:]))
